@@ -185,7 +185,7 @@ def exec_counts(case):
         walk(p, pp, mult)
       elif k == 'shared' and progs:
         j = op['j'] % len(progs)
-        walk(progs[j], (f'shared_{j}',), mult)
+        walk(progs[j], (L.shared_name(j, len(progs)),), mult)
 
   walk(case['prog'], (), 1)
   return counts
